@@ -9,7 +9,7 @@ from . import core
 
 CRATES = {
     "mithril-common": ("mithril-common", "mithril_common", []),
-    "mithril-stm": ("mithril-stm", "mithril_stm", ["--no-default-features", "--features", "num-integer-backend"]),
+    "mithril-stm": ("mithril-stm", "mithril_stm", []),
 }
 
 
